@@ -382,7 +382,10 @@ def run_p2d(case, ctx, r):
             "Q = %r qx^2 + %r qx qy + %r qy^2 + %r" % (qref, 3.1 * qref, DIRS, rp, rt, case["acc"], a, b, c, d))
     cv = Conv(r, fk, desc)
     data = Data2D(x=qx.copy(), y=qy.copy(), dx=spar.copy(), dy=sperp.copy())
-    res = resolution2d.Pinhole2D(data=data, index=None, nsigma=3.0, accuracy=case["acc"])
+    with warnings.catch_warnings():
+        warnings.simplefilter("ignore")          # qy/qx on the qx = 0 axis
+        with np.errstate(all="ignore"):
+            res = resolution2d.Pinhole2D(data=data, index=None, nsigma=3.0, accuracy=case["acc"])
     cx, cy = [np.asarray(v, float) for v in res.q_calc]
     Q = lambda x, y: a * x * x + b * x * y + c * y * y + d
     with np.errstate(all="ignore"):
@@ -409,6 +412,7 @@ def run_p2d(case, ctx, r):
 
 
 def run_case(case, ctx):
+    np.set_printoptions(legacy="1.25")     # plain floats in failure details
     r = R()
     kind = case["kind"]
     try:
